@@ -81,6 +81,29 @@ def bool_val(b) -> Val:
     return Val.const(b) if isinstance(b, bool) else Val(T.BOOL, b)
 
 
+def pop_guards(st, mark):
+    """Leave a guarded evaluation: drop the guards pushed since `mark` but keep every fact that was
+    assumed under them (definitions of fresh symbols, callee postconditions) as an implication."""
+    tail = st.pc[mark:]
+    del st.pc[mark:]
+    guards = []
+    for f in tail:
+        if getattr(f, "_is_guard", False):
+            guards.append(f)
+        else:
+            st.pc.append(z3.Implies(z3.And(*guards), f) if guards else f)
+
+
+def push_guard(st, g):
+    g = z3bool(g)
+    # mark by identity: wrap in a fresh python object attribute
+    try:
+        g._is_guard = True
+    except Exception:
+        pass
+    st.pc.append(g)
+
+
 class ExprMixin:
     # ---- entry -------------------------------------------------------------------
     def eval(self, node, st) -> Val:
@@ -227,9 +250,9 @@ class ExprMixin:
                         break
                     continue
                 g = t if is_and else z3.Not(t)
-                st.pc.append(g)
+                push_guard(st, g)
         finally:
-            del st.pc[mark:]
+            pop_guards(st, mark)
         # value semantics: fold from the right
         res = vals[-1][0]
         for v, t in reversed(vals[:-1]):
@@ -245,16 +268,17 @@ class ExprMixin:
         if isinstance(c, bool):
             return self.eval(node.body if c else node.orelse, st)
         mark = len(st.pc)
-        st.pc.append(c)
+        push_guard(st, c)
         try:
             a = self.eval(node.body, st)
         finally:
-            del st.pc[mark:]
-        st.pc.append(z3.Not(c))
+            pop_guards(st, mark)
+        mark = len(st.pc)
+        push_guard(st, z3.Not(c))
         try:
             b = self.eval(node.orelse, st)
         finally:
-            del st.pc[mark:]
+            pop_guards(st, mark)
         return ops.ite(c, a, b)
 
     def e_Compare(self, node, st):
@@ -269,10 +293,10 @@ class ExprMixin:
                 if r is False:
                     break
                 if r is not True:
-                    st.pc.append(r)
+                    push_guard(st, r)
                 left = right
         finally:
-            del st.pc[mark:]
+            pop_guards(st, mark)
         return bool_val(z_and(*res))
 
     def compare(self, op, a, b, st, node):
@@ -304,6 +328,9 @@ class ExprMixin:
             if self.find_method(cs, name) is not None:
                 return Val.obj(BoundMethod(recv, name))
             raise Unsupported(f"attribute {cs.name}.{name} is not declared in the contract vocabulary", node)
+        if isinstance(recv.ty, T.Named) and name in recv.ty.names and not recv.is_py:
+            k = recv.ty.names.index(name)
+            return Val(recv.ty.items[k], recv.ty.sort().accessor(0, k)(recv.term))
         if recv.is_py and recv.ty is PYOBJ and not isinstance(recv.py, (list, tuple, dict, set)):
             return self.py_getattr(recv.py, name, node, st)
         return Val.obj(BoundMethod(recv, name))
